@@ -184,6 +184,13 @@ class TranslateNode(Node, TranslatableTag):
         message_context: str | None,
     ) -> str:
         """Get translated text from the given translations object."""
+        if not self.singular_block.block.nodes:
+            # There is no message id to look up, and nothing is extracted for an
+            # empty block. (An empty msgid is the catalog's header entry.)
+            if self.plural_block and count is not None and count != 1:
+                return self.plural_block.text
+            return ""
+
         if self.plural_block and count is not None:
             if message_context:
                 return translations.npgettext(
@@ -233,8 +240,13 @@ class TranslateNode(Node, TranslatableTag):
 
         message_context = self.args.get(self.message_context_var)
 
+        # An empty context is no context at render time too.
         if self.plural_block:
-            if message_context and isinstance(message_context.value, StringLiteral):
+            if (
+                message_context
+                and isinstance(message_context.value, StringLiteral)
+                and message_context.value.value
+            ):
                 funcname = "npgettext"
                 message: MESSAGES = (
                     (message_context.value.value, "c"),
@@ -247,7 +259,11 @@ class TranslateNode(Node, TranslatableTag):
                     self.singular_block.text,
                     self.plural_block.text,
                 )
-        elif message_context and isinstance(message_context.value, StringLiteral):
+        elif (
+            message_context
+            and isinstance(message_context.value, StringLiteral)
+            and message_context.value.value
+        ):
             funcname = "pgettext"
             message = (
                 (message_context.value.value, "c"),
